@@ -97,7 +97,10 @@ def check_C08(tier, seed, replay=None):
 # reference-equality family (C01..C06): engine vs reference engine on generated
 # cases, known findings classified by the guards computed in harness/classify.go
 
-SKIP_TAGS = {"topk-tie"}   # the reference engine itself is not a function of its inputs there
+# topk-tie: the reference engine itself is not a function of its inputs there.
+# variance-conditioning: top-level stddev/stdvar whose difference is within the conditioning of the variance
+# (absolute 1e-12 * n * max|x|^2 on the variance); a relative tolerance on a variance of nearly equal values is meaningless.
+SKIP_TAGS = {"topk-tie", "variance-conditioning"}
 
 
 def known_by_tag(prop):
